@@ -73,6 +73,17 @@ func execCase(c *Case) []ModeResult {
 	}
 }
 
+// safeExec: a panic of the harness itself while executing one case is reported for that case (exit 2 material), it does not
+// take the other cases down with it.
+func safeExec(c *Case) (res []ModeResult) {
+	defer func() {
+		if r := recover(); r != nil {
+			res = []ModeResult{{"harness", fmt.Sprintf("infra:the harness panicked on this case: %v", r), ""}}
+		}
+	}()
+	return execCase(c)
+}
+
 // execKinds is filled by the files implementing further case kinds.
 var execKinds = map[string]func(*Case) []ModeResult{}
 
@@ -153,7 +164,7 @@ func cmdReplay(args []string) int {
 					results <- result{text: j.text, err: err}
 					continue
 				}
-				results <- result{c: c, text: j.text, res: execCase(c)}
+				results <- result{c: c, text: j.text, res: safeExec(c)}
 			}
 		}()
 	}
